@@ -1,5 +1,5 @@
 (* C01 - combinational outputs agree with their inputs whenever the circuit is idle. *)
-From Verif Require Import Values Sim SimProofs.
+From Verif Require Import Values Sim SimProofs LogicLawsProofs.
 Open Scope list_scope.
 Open Scope Q_scope.
 
@@ -28,6 +28,24 @@ Proof. exact or_spec. Qed.
 Theorem C01_xor : forall own l,
   apply_fun FXor own [("_"%string, VG l)] = Ok (VBool (Nat.odd (List.length (filter truthy l)))).
 Proof. exact xor_spec. Qed.
+(* composition laws (any number of inputs, any values): wiring Not after And equals Or over
+   the negated inputs and vice versa; Not after Not is the truth value; Xor over a
+   concatenation of input groups is the xor of the groups *)
+Theorem C01_not_and_is_or_not : forall own l,
+  apply_fun FNot own [("_"%string, VG [VBool (forallb truthy l)])]
+  = apply_fun FOr own [("_"%string, VG (map bnot l))].
+Proof. exact not_and_is_or_not. Qed.
+Theorem C01_not_or_is_and_not : forall own l,
+  apply_fun FNot own [("_"%string, VG [VBool (existsb truthy l)])]
+  = apply_fun FAnd own [("_"%string, VG (map bnot l))].
+Proof. exact not_or_is_and_not. Qed.
+Theorem C01_not_not_is_truth : forall own x,
+  apply_fun FNot own [("_"%string, VG [bnot x])] = Ok (VBool (truthy x)).
+Proof. exact not_not_is_truth. Qed.
+Theorem C01_xor_app : forall own l1 l2,
+  apply_fun FXor own [("_"%string, VG (l1 ++ l2))]
+  = Ok (VBool (xorb (Nat.odd (List.length (filter truthy l1))) (Nat.odd (List.length (filter truthy l2))))).
+Proof. exact xor_app. Qed.
 Theorem C01_override : forall own null i o,
   apply_fun (FOverride null) own [("input"%string, VS i); ("override"%string, VS o)]
   = Ok (if py_eq o null then i else o).
@@ -67,3 +85,7 @@ Print Assumptions C01_xor.
 Print Assumptions C01_override.
 Print Assumptions C01_compare.
 Print Assumptions C01_compare_fixpoint.
+Print Assumptions C01_not_and_is_or_not.
+Print Assumptions C01_not_or_is_and_not.
+Print Assumptions C01_not_not_is_truth.
+Print Assumptions C01_xor_app.
